@@ -6,6 +6,8 @@ use serde_json::json;
 
 use crate::infra::{Replay, Report, Tier, threads};
 use crate::sched::{ExploreCfg, Shape, explore};
+use crate::thr::{self, ThrCfg};
+use crate::tlc;
 
 const L: &str = "(VALUES (1,'a'),(2,'b'),(2,'c'),(NULL,'d'),(3,'e')) l(a,x)";
 const R: &str = "(VALUES (2,10),(2,20),(3,30),(NULL,40),(4,50)) r(a,y)";
@@ -198,17 +200,102 @@ pub fn run(tier: Tier) -> i32 {
             samples.push(json!({"shape": sh.name, "query": sh.query, "schedule": r1.sample_schedules.last()}));
         }
     }
+    // ---- thread level: the real ThreadedScheduler / TaskState / cancel under a controlled scheduler (hook H2),
+    // and the TLA+ model of the task state machine bound to it by trace inclusion
+    let (thr_states, thr_transitions, accepted) = thread_level(tier, &shapes, &mut rep);
+    states += thr_states;
+    transitions += thr_transitions;
     rep.cov("states", json!(states));
     rep.cov("transitions", json!(transitions));
-    rep.cov("traces_validated_against_impl", json!(states));
+    rep.cov("traces_validated_against_impl", json!(states + accepted));
     rep.cov("samples", json!(samples));
     rep.cov("shapes", json!(per_shape));
     rep.cov("vacuous_shapes", json!(vacuous));
     rep.cov("explanation", json!("states = distinct schedules, each executed to completion on the real operators (the explorer drives ExecutablePartitionPipeline::poll_execute directly, so every trace is an implementation trace); transitions = scheduling steps. Pass 1 enumerates every poll-level schedule of the shape (complete=true) or stops at the stated cap (complete=false); pass 2 enumerates every schedule with <= max_dev deviations from the default schedule where a deviation is choosing another enabled actor or polling a parked actor (spurious / repeated wake-up)."));
     rep.cov("exhaustive", json!(per_shape_complete(&rep)));
-    rep.assume("scheduling points are polls (poll-atomic); lock-level interleavings inside a poll are the subject of the thread-level explorer");
+    rep.assume("poll-level explorer: scheduling points are polls (poll-atomic). thread-level explorer: scheduling points are the locks of the task state machine outside polls; a poll and the wake-ups it issues are one step; sequential consistency");
+    rep.assume("hook H2 (cfg glaredb_verif) in glaredb_rt_native::threaded: scheduling points, transition log, pool stand-in; the scheduler code itself is the production code");
     rep.assume("VALUES / generate_series sources are used with small batch sizes because TEMP-table scans ignore batch_size (known finding under C03)");
     rep.finish()
+}
+
+/// Thread-level exploration (E-SCHED/B) + model conformance. Returns (executions, decisions, impl traces accepted by the model).
+fn thread_level(tier: Tier, all: &[Shape], rep: &mut Report) -> (u64, u64, u64) {
+    crate::guard::set_wall_limit_ms(5_000);
+    let pick = |names: &[&str]| -> Vec<Shape> { all.iter().filter(|s| names.iter().any(|n| s.name == *n || s.name.starts_with(&format!("{n}/P2")))).cloned().collect() };
+    let (plain, cancel, dev, pre, wall) = match tier {
+        Tier::Quick => (pick(&["hashjoin-inner", "groupby", "sort-limit", "backpressure", "error-in-partition", "insert-select", "matcte-union"]), pick(&["hashjoin-inner", "backpressure", "agg-distinct"]), 1usize, 1usize, 20u64),
+        Tier::Thorough => (
+            pick(&["hashjoin-inner", "hashjoin-left", "hashjoin-mark", "nljoin-left", "groupby", "agg-distinct", "distinct", "sort", "sort-limit", "limit", "unionall", "matcte-join-and-subquery", "matcte-union", "corr-subquery", "backpressure", "error-in-partition", "error-in-join-build", "insert-select", "ctas", "tables-hashjoin", "empty-nomatch-join-L-hashjoin-left", "empty-offset-all-R-hashjoin-right"]),
+            pick(&["hashjoin-inner", "hashjoin-left", "groupby", "agg-distinct", "sort", "backpressure", "unionall", "insert-select"]),
+            2usize,
+            2usize,
+            150u64,
+        ),
+    };
+    let graph = match tlc::load_graph() {
+        Ok(g) => Some(g),
+        Err(e) => {
+            rep.machinery_errors.push(format!("TLA+ model of the task state machine: {e}"));
+            None
+        }
+    };
+    let mut conf = tlc::Conformance::default();
+    let (mut execs, mut decs) = (0u64, 0u64);
+    let mut per_shape = Vec::new();
+    let mut sample = None;
+    let mut all_complete = true;
+    for (shapes, with_cancel) in [(&plain, false), (&cancel, true)] {
+        for sh in shapes.iter() {
+            let cfg = ThrCfg { max_dev: dev, max_preempt: pre, wall_cap: Duration::from_secs(wall), exec_cap: u64::MAX, threads: threads(), with_cancel };
+            let r = thr::explore(sh, &cfg);
+            execs += r.executions;
+            decs += r.decisions;
+            all_complete &= r.complete;
+            for m in &r.machinery {
+                rep.machinery_errors.push(m.clone());
+            }
+            let base = sh.name.split('/').next().unwrap_or(&sh.name);
+            let mk = |schedule: &[u16], expected: &str, observed: &str| {
+                let mut steps: Vec<(usize, String)> = sh.setup.iter().map(|s| (0usize, s.clone())).collect();
+                steps.extend(sh.per_run.iter().map(|s| (0usize, s.clone())));
+                steps.push((0, sh.query.clone()));
+                Replay { check: if with_cancel { "C04/thread+cancel".into() } else { "C04/thread".into() }, steps, schedule: Some(schedule.to_vec()), expected: expected.into(), observed: observed.into(), note: format!("shape={} thread-level schedule on the real ThreadedScheduler (thread chosen at each scheduling point; 0 = result consumer, workers in spawn order{})", sh.name, if with_cancel { ", one thread calls QueryHandle::cancel" } else { "" }), ..Default::default() }
+            };
+            for v in &r.violations {
+                rep.fail(format!("C04|thread:{}|{}", v.class, base), mk(&v.schedule, &v.expected, &v.observed));
+            }
+            if let Some(g) = &graph {
+                for (t, sched) in &r.distinct_task_traces {
+                    if let Err(e) = g.accept(t, &mut conf) {
+                        if conf.rejected.len() < 20 {
+                            conf.rejected.push(e.clone());
+                        }
+                        rep.fail(format!("C04|thread:trace-not-in-model|{base}"), mk(sched, "every sequence of ScheduleState transitions and polls of a task is a path of models/TaskState.tla", &e));
+                    }
+                }
+            }
+            if sample.is_none() {
+                sample = r.sample.clone().map(|s| json!({"shape": sh.name, "thread_schedule": s}));
+            }
+            per_shape.push(json!({"shape": sh.name, "cancel": with_cancel, "executions": r.executions, "decisions": r.decisions, "complete_within_bound": r.complete, "max_decisions": r.max_len, "max_threads": r.max_threads, "tasks": r.n_tasks, "distinct_outcomes": r.distinct_outcomes, "distinct_task_traces": r.distinct_task_traces.len(), "cancel_runs_ending_in_error": r.cancel_error_runs, "cancel_runs_completed_before_cancel": r.cancel_late_runs}));
+        }
+    }
+    let accepted = conf.traces as u64;
+    rep.cov(
+        "thread_level",
+        json!({"max_deviations": dev, "max_preemptions": pre, "executions": execs, "decisions": decs, "all_complete_within_bound": all_complete, "sample": sample, "shapes": per_shape,
+            "explanation": "every execution runs the real ThreadedScheduler::spawn_pipelines / TaskState::schedule / worker loop / ThreadedQueryHandle::cancel; one thread runs at a time and yields before every lock of a task's schedule state or pipeline outside a poll; all schedules with <= max_deviations non-default choices (of which <= max_preemptions preempt a runnable thread) are executed; oracles: terminates, same result, error reaches the client, cancel while a task is incomplete ends in an error, at most one worker per task, no poll after completion"}),
+    );
+    if let Some(g) = &graph {
+        rep.cov(
+            "tla_model",
+            json!({"file": "models/TaskState.tla", "tlc": g.tlc_summary, "model_states": g.states.len(), "model_edges": g.n_edges(), "impl_traces_accepted": conf.traces, "impl_trace_steps": conf.steps, "impl_traces_rejected": conf.rejected,
+                "model_states_witnessed_by_impl": conf.visited_states.len(), "model_edges_witnessed_by_impl": conf.visited_edges.len(), "model_actions_never_witnessed": g.unwitnessed_actions(&conf),
+                "explanation": "TLC checks the invariants (at most one worker, pending only while running, never run again after completion, no lost wake-up) on the model's whole state space and dumps the state graph; every distinct per-task sequence of logged ScheduleState transitions and poll results from all thread-level executions is replayed on that graph, comparing the logged running/pending/completed/canceled flags with the model state after each step"}),
+        );
+    }
+    (execs, decs, accepted)
 }
 
 fn per_shape_complete(rep: &Report) -> bool {
